@@ -131,7 +131,11 @@ func mapRequestToHashInput(req *http.Request) (string, error) {
 
 	// Add request body, if present (may be absent for GET requests, etc).
 	if req.Body != nil {
-		body, _ := ioutil.ReadAll(req.Body)
+		body, err := ioutil.ReadAll(req.Body)
+		if err != nil {
+			// signing and forwarding the part that could be read would turn a broken request into a valid one
+			return "", fmt.Errorf("could not read request body: %s", err)
+		}
 		req.Body = ioutil.NopCloser(bytes.NewBuffer(body))
 		entries = append(entries, string(body))
 	}
